@@ -53,8 +53,10 @@ def make_sparse_from_indices_and_values(interp_indices, interp_values, num_rows)
         index_tensor = index_tensor.index_select(1, nonzero_indices)
         value_tensor = value_tensor.index_select(0, nonzero_indices)
     else:
-        index_tensor = index_tensor.resize_(interp_indices.dim(), 1).zero_()
-        value_tensor = value_tensor.resize_(1).zero_()
+        # All values are zero: a single explicit zero entry
+        # (value_tensor may be a view of the caller's interp_values, so it must not be resized / zeroed in place)
+        index_tensor = torch.zeros(interp_indices.dim(), 1, dtype=torch.long, device=interp_values.device)
+        value_tensor = torch.zeros(1, dtype=interp_values.dtype, device=interp_values.device)
 
     # Make the sparse tensor
     type_name = value_tensor.type().split(".")[-1]  # e.g. FloatTensor
